@@ -130,7 +130,12 @@ func vpC14Laws(pa, pb vpIRIParts, checkScheme bool) {
 	}
 	vpAssert("symmetric", ab == ba)
 	vpAssert("reflexive", a.Equals(a, checkScheme))
-	vpAssert("contains-agrees", IRIs{b}.Contains(a) == a.Equals(b, false))
+	eq := a.Equals(b, false)
+	vpAssert("contains-agrees", IRIs{b}.Contains(a) == eq)
+	// ... wherever in the list the member stands
+	other, other2 := IRI("https://zz.example/none"), IRI("urn:x:none")
+	vpAssert("contains-agrees-second", IRIs{other, b}.Contains(a) == eq)
+	vpAssert("contains-agrees-third", IRIs{other, other2, b}.Contains(a) == eq && IRIs{other, b, other2}.Contains(a) == eq)
 	vpReach("end")
 }
 
